@@ -2430,3 +2430,26 @@ client_handshake(int dns_fd, int raw_mode, int autodetect_frag_size, int fragsiz
 	return 0;
 }
 
+
+#ifdef IODINE_VERIF
+/* Verification builds only: read-only view of the client's transfer state
+   for an external monitor. Not compiled into normal builds. */
+void
+iodine_verif_client_state(int *v)
+{
+	v[0] = inpkt.seqno;
+	v[1] = inpkt.fragment;
+	v[2] = inpkt.len;
+	v[3] = outpkt.seqno;
+	v[4] = outpkt.fragment;
+	v[5] = outpkt.len;
+	v[6] = outpkt.offset;
+	v[7] = outpkt.sentlen;
+	v[8] = chunkid;
+	v[9] = chunkid_prev;
+	v[10] = chunkid_prev2;
+	v[11] = conn;
+	v[12] = lazymode;
+	v[13] = userid;
+}
+#endif
